@@ -47,6 +47,15 @@ def py_val(v):
     raise MachineryError(f"value {v}")
 
 
+def hn(name):
+    """the Hy spelling of a capture name: with a hyphen, so that only the mangled name is a Python identifier"""
+    return name if name == "_" else name + "-n"
+
+
+def pn(name):
+    return name if name == "_" else name + "_n"
+
+
 def hy_pat(p):
     t = p[0]
     if t == "lit":
@@ -54,24 +63,24 @@ def hy_pat(p):
     if t == "val":
         return "C.one"
     if t == "cap":
-        return p[1]
+        return hn(p[1])
     if t == "wild":
         return "_"
     if t == "star":
-        return f"#* {p[1]}"
+        return f"#* {hn(p[1])}"
     if t == "seq":
         return "[" + " ".join(map(hy_pat, p[1])) + "]"
     if t == "map":
         items = [f"{hy_val(k)} {hy_pat(x)}" for k, x in p[1]]
         if p[2]:
-            items.append(f"#** {p[2]}")
+            items.append(f"#** {hn(p[2])}")
         return "{" + "  ".join(items) + "}"
     if t == "cls":
         return "(" + " ".join([p[1]] + [hy_pat(x) for x in p[2]] + [f":{a} {hy_pat(x)}" for a, x in p[3]]) + ")"
     if t == "or":
         return "(| " + " ".join(map(hy_pat, p[1])) + ")"
     if t == "as":
-        return f"{hy_pat(p[1])} :as {p[2]}"
+        return f"{hy_pat(p[1])} :as {hn(p[2])}"
     raise MachineryError(f"pattern {p}")
 
 
@@ -82,24 +91,24 @@ def py_pat(p):
     if t == "val":
         return "C.one"
     if t == "cap":
-        return p[1]
+        return pn(p[1])
     if t == "wild":
         return "_"
     if t == "star":
-        return f"*{p[1]}"
+        return f"*{pn(p[1])}"
     if t == "seq":
         return "[" + ", ".join(map(py_pat, p[1])) + "]"
     if t == "map":
         items = [f"{py_val(k)}: {py_pat(x)}" for k, x in p[1]]
         if p[2]:
-            items.append(f"**{p[2]}")
+            items.append(f"**{pn(p[2])}")
         return "{" + ", ".join(items) + "}"
     if t == "cls":
         return p[1] + "(" + ", ".join([py_pat(x) for x in p[2]] + [f"{a}={py_pat(x)}" for a, x in p[3]]) + ")"
     if t == "or":
         return "(" + " | ".join(map(py_pat, p[1])) + ")"
     if t == "as":
-        return f"({py_pat(p[1])} as {p[2]})"
+        return f"({py_pat(p[1])} as {pn(p[2])})"
     raise MachineryError(f"pattern {p}")
 
 
@@ -125,18 +134,18 @@ def names(p):
     raise MachineryError(f"pattern {p}")
 
 
-HY_GUARD = {"T": "True", "F": "False", "stmt-T": "(do (setv hyv-g 1) True)", "stmt-F": "(do (setv hyv-g 1) False)", "x1": "(= x 1)",
-            "stmt-x1": "(do (setv hyv-g 1) (= x 1))"}
-PY_GUARD = {"T": "True", "F": "False", "stmt-T": "True", "stmt-F": "False", "x1": "x == 1", "stmt-x1": "x == 1"}
+HY_GUARD = {"T": "True", "F": "False", "stmt-T": "(do (setv hyv-g 1) True)", "stmt-F": "(do (setv hyv-g 1) False)", "x1": "(= x-n 1)",
+            "stmt-x1": "(do (setv hyv-g 1) (= x-n 1))"}
+PY_GUARD = {"T": "True", "F": "False", "stmt-T": "True", "stmt-F": "False", "x1": "x_n == 1", "stmt-x1": "x_n == 1"}
 
 
 def hy_program(prog, scope):
     cases = []
     for i, c in enumerate(prog["cases"], 1):
         ns = sorted(names(c["pat"]))
-        body = f"#({i} {{" + "  ".join(f'"{n}" {n}' for n in ns) + "})"
+        body = f"#({i} {{" + "  ".join(f'"{n}" {hn(n)}' for n in ns) + "})"
         if c["guard"] == "stmt-all":
-            g = " :if (do (setv hyv-g 1) (isinstance [" + " ".join(ns) + "] list))"
+            g = " :if (do (setv hyv-g 1) (isinstance [" + " ".join(map(hn, ns)) + "] list))"
         else:
             g = "" if c["guard"] == "none" else f" :if {HY_GUARD[c['guard']]}"
         cases.append(f"  {hy_pat(c['pat'])}{g} {body}")
@@ -153,11 +162,11 @@ def py_program(prog):
     for i, c in enumerate(prog["cases"], 1):
         ns = sorted(names(c["pat"]))
         if c["guard"] == "stmt-all":
-            g = " if isinstance([" + ", ".join(ns) + "], list)"
+            g = " if isinstance([" + ", ".join(map(pn, ns)) + "], list)"
         else:
             g = "" if c["guard"] == "none" else f" if {PY_GUARD[c['guard']]}"
         lines.append(f"    case {py_pat(c['pat'])}{g}:")
-        lines.append(f"        R = ({i}, {{" + ", ".join(f"{n!r}: {n}" for n in ns) + "})")
+        lines.append(f"        R = ({i}, {{" + ", ".join(f"{n!r}: {pn(n)}" for n in ns) + "})")
     return "\n".join(lines) + "\n"
 
 
